@@ -59,7 +59,8 @@ def pack_stage(name, universe, rulemode, prop, seed, extra_args=None, **kw):
 def pack_stages(prop, tier, seed):
     q = tier == "quick"
     if prop == "C03":
-        st = [pack_stage("ign1", "ignore", "single", prop, seed)]
+        st = [pack_stage("ign1", "ignore", "single", prop, seed), prep_stage("bundle1", "rules", "single", prop),
+              prep_stage("bundle2", "rules", "pairq" if q else "pair", prop)]
         if q:
             st.append(pack_stage("ign2q", "ignore", "pairq", prop, seed))
         else:
@@ -140,6 +141,8 @@ def builder_stages(prop, tier, seed):
         return [faults]
     if prop == "C13":
         return [coal, base] if not q else [coal]
+    if prop == "C09":
+        return [coal] if q else [coal, vers, base]
     raise KeyError(prop)
 
 
@@ -147,13 +150,59 @@ BUILDER_ASSUME = ["scripted environment (fetcher, registry client, comparable fi
                   "the finder learns which package it analyses from the preceding Download Start/Already tracer event (all under b.mu)",
                   "dirhash / encoding/json are environment (only laws over their results are stated)", "TLC"]
 
+BUNDLE_JUDGE = {"module": "Judge_Bundle", "cfg": "Judge_Bundle.cfg"}
+
+
+def bundle_stages(prop, tier, seed):
+    return [dict(name="manifests", module="Bundle", cfg="MC_Bundle.cfg", family="bundle", judge=BUNDLE_JUDGE, exhaustive=True,
+                 overrides={"MaxPkgs": "2" if tier == "quick" else "3"}, vh_args=["-props", prop], workers=2, timeout=3000)]
+
+
+PREP_JUDGE = {"module": "Judge_Prepare", "cfg": "Judge_Prepare.cfg"}
+
+
+def prep_stage(name, universe, rulemode, prop, **kw):
+    d = dict(name=name, module="MC_Prepare", cfg="MC_Prepare.cfg", family="prep", judge=PREP_JUDGE, exhaustive=True,
+             overrides={"PUniverse": '"%s"' % universe, "PRuleMode": '"%s"' % rulemode}, vh_args=["-props", prop], timeout=3000)
+    d.update(kw)
+    return d
+
+
+def prep_stages(prop, tier, seed):
+    q = tier == "quick"
+    return [prep_stage("links", "links", "none", prop), prep_stage("rules1", "rules", "single", prop),
+            prep_stage("rules2", "rules", "pairq" if q else "pair", prop)]
+
+
 PROPS = {
+    "C10": dict(stages=prep_stages, key="c10", wkey="w10", kfkey="kf10",
+                rule="cases = fetched package trees of spec/MC_Prepare.tla: links at the package root and inside a directory with 12 x 4 "
+                     "target shapes (in-package, to a sibling package, to the manifest, out of the bundle, chained, through an ignored "
+                     "directory, dangling, to a directory, absolute into the work directory, absolute outside), a fifo at the root or "
+                     "inside an ignored directory, rule files; and rule lists over a saturated tree; the real builder fetches the tree "
+                     "through a scripted fetcher; judged: package directory sanitary, excluded paths removed, must-fail shapes fail, "
+                     "no temporary directory left, arena outside the target unchanged",
+                assume=["arena gamma/pi", "scripted fetcher materialises the tree in the builder's work directory", "TLC"]),
+    "C18": dict(stages=bundle_stages, key="c18", wkey="w18", kfkey="kf18",
+                rule="cases = manifest documents generated field-wise by spec/Bundle.tla (format number 0/1/2, up to 2 (thorough 3) package "
+                     "entries from 6 address classes x 13 directory-name classes incl. nested, '.', '..', empty, absolute, '../x', 'a/..', "
+                     "backslash, the manifest's own name, a temp-like name; duplicates and aliases; registry entries with valid / invalid "
+                     "address, version, target); for each opened bundle: forward lookups of every address x 3 sub-paths, reverse lookups "
+                     "incl. '.'/'..' spellings, six outside paths",
+                assume=["manifest written with encoding/json", "TLC"]),
     "C08": dict(stages=builder_stages, key="c08", wkey="w08", kfkey="kf08",
                 rule="cases = terminal behaviours of spec/Builder.tla (lazy world: what finders report incl. relative paths, what the "
                      "registry lists and returns, what the fetcher delivers) x Add sequences with repeats; replayed with a scripted "
                      "environment; every source of RefClosure is looked up in the real bundle (defined, inside the root, exists iff the "
                      "fetched tree has the sub-path, holds the fetched content; registry lookups equal the joined remote address; "
                      "reverse lookup inverts; metadata unchanged); non-trivial = >= 3 tracer events",
+                assume=BUILDER_ASSUME),
+    "C09": dict(stages=builder_stages, key="c09", wkey="w09", kfkey="kf09",
+                rule="cases = every bundle finished in the exploration (worlds with several packages, content ids whose trees carry "
+                     "relative links, an empty directory, 0600/0755/0750 modes, registry packages with versions and deprecations, "
+                     "addresses with queries and sub-paths by gamma); the bundle returned by Close is compared, accessor by accessor "
+                     "and relative to its root, with OpenDir of its directory and with ExtractArchive(WriteArchive) into another "
+                     "directory, plus a file-by-file comparison of the two trees",
                 assume=BUILDER_ASSUME),
     "C12": dict(stages=builder_stages, key="c12", wkey="w12", kfkey="kf12",
                 rule="cases = behaviours with every single (thorough: pair of) failing environment call (versions, source address, "
